@@ -1,15 +1,59 @@
 """C07 -- see DESIGN.md; obligations + oracle sweep."""
 from .. import common as C, generic as G
 
-TRUSTED = ['Coq 8.16.1 kernel + vm_compute', 'translator/*.py', 'oracle harness harness/oracles/C07.py']
-PERRUN = []
-GEN = ('Gen_util',)
-LEVEL = 'other'
+TRUSTED = ['Coq 8.16.1 kernel + vm_compute', 'translator/tables.py: rows of ParameterList.param_type, default keys, exit sites, constructor arity, EXIT_ names found in docs/userguide.rst', 'the hand-written model of check_integer/check_float/check_bool/check_str in DV.Lib.MValid (compared with the implementation by the sweep over every key x {in range, boundaries, out of range, wrong type, None})', 'Python: isinstance(True, int) holds; comparisons with NaN are False; dynamic typing of non-parameter arguments is only validated']
+PERRUN = ['C07.v']
+GEN = ('Gen_tables',)
+LEVEL = 'proof'
 EXPLANATION = 'obligations: translation of the anchored functions + theorems listed in coverage.theorems; the remaining clauses are validated by the oracle sweep only'
 
 
+def correspondence(ctx):
+    """MValid.check_param on the regenerated table == ParameterList.check_param, for every key x value kind"""
+    import math
+    from fractions import Fraction
+    from dfols.params import ParameterList
+    npt = 5
+    P = ParameterList(3, npt, 100)
+    vals = [None, True, False, -1, 0, 1, 2, npt - 1, npt, npt + 1, 10 ** 6, -1.0, 0.0, 1e-300, 0.5, 1.0, 1.0 + 2 ** -52, 2.0, 1e10, float('nan'), float('inf'), float('-inf'), 'txt', [1]]
+    def lit(v):
+        if v is None: return 'VNone'
+        if isinstance(v, bool): return '(VBool %s)' % ('true' if v else 'false')
+        if isinstance(v, int): return '(VInt %s)' % C.zlit(v)
+        if isinstance(v, float):
+            if math.isnan(v): return 'VFloatNaN'
+            if math.isinf(v): return '(VFloatInf %s)' % ('true' if v < 0 else 'false')
+            f = Fraction(v)
+            return '(VFloat (QArith_base.Qmake %s %d))' % (C.zlit(f.numerator), f.denominator)
+        if isinstance(v, str): return 'VStr'
+        return 'VOther'
+    cases = []
+    for key in sorted(P.params):
+        for v in vals:
+            try:
+                ok = bool(P.check_param(key, v, npt))
+            except Exception as ex:
+                ok = 'raise:' + type(ex).__name__
+            cases.append((key, v, ok))
+    items = ['(match check_param (table %d) "%s" %s with Accept => 1 | Reject => 0 | UnknownKey => 2 | BadTable => 3 end)' % (npt, k, lit(v)) for (k, v, _) in cases]
+    body = ['From Coq Require Import ZArith List Bool String QArith.', 'Require Import DV.Lib.Tables DV.Lib.MValid.', 'From G Require Import Gen_tables.', 'From P Require Import C07.',
+            'Import ListNotations.', 'Open Scope Z_scope.', 'Open Scope string_scope.', 'Eval vm_compute in [' + ';\n'.join(items) + '].']
+    ok, out = C.coq_eval(ctx, 'cases_params', '\n'.join(body), '')
+    if not ok:
+        ctx.oblige('correspondence:check_param', False, C.first_error(out))
+        return
+    got = (C.parse_eval_lists(out) or [[]])[0]
+    bad = [(cases[i][0], repr(cases[i][1]), cases[i][2], g) for i, g in enumerate(got) if (cases[i][2] is True and g != 1) or (cases[i][2] is False and g != 0) or (isinstance(cases[i][2], str))]
+    ctx.cov['traces_validated_against_impl'] = len(got)
+    if len(got) != len(cases) or bad:
+        ctx.oblige('correspondence:check_param', False, '%d of %d (key, value) decisions differ, first: %s' % (len(bad), len(cases), bad[:1]))
+    else:
+        ctx.oblige('correspondence:check_param(%d keys x %d values: model decision == ParameterList.check_param)' % (len(P.params), len(vals)), True)
+    ctx.sample(dict(kind='check_param-case', key=cases[7][0], value=repr(cases[7][1]), accepted=cases[7][2]))
+
+
 def run(ctx):
-    return G.run(ctx, 'C07', LEVEL, GEN, PERRUN, TRUSTED, explanation=EXPLANATION)
+    return G.run(ctx, 'C07', LEVEL, GEN, PERRUN, TRUSTED, correspondence=correspondence, explanation=EXPLANATION)
 
 
 def replay(payload):
